@@ -138,7 +138,7 @@ theorem primsOK_svAt (P : Params) (h : Nat) : PrimsOK P h (svAt h) where
   setConvertedAmount _ _ _ := guarded_keep2 (·.syncVersions) (·.synced) (svAt_keep h) (fun _ => rfl) (fun _ => rfl)
   setPegConverted _ _ _ _ := guarded_keep2 (·.syncVersions) (·.synced) (svAt_keep h) (fun _ => rfl) (fun _ => rfl)
   insertRelation _ _ _ _ _ := guarded_keep2 (·.syncVersions) (·.synced) (svAt_keep h) (fun s => by split <;> rfl) (fun s => by split <;> rfl)
-  insertHolding _ _ := guarded_keep2 (·.syncVersions) (·.synced) (svAt_keep h) (fun _ => rfl) (fun _ => rfl)
+  insertHolding _ _ _ := guarded_keep2 (·.syncVersions) (·.synced) (svAt_keep h) (fun _ => rfl) (fun _ => rfl)
   insertBank _ := guarded_keep2 (·.syncVersions) (·.synced) (svAt_keep h) (fun _ => rfl) (fun _ => rfl)
   updateBank _ _ _ := guarded_keep2 (·.syncVersions) (·.synced) (svAt_keep h) (fun _ => rfl) (fun _ => rfl)
   insertGrade _ _ _ _ _ := guarded_keep2 (·.syncVersions) (·.synced) (svAt_keep h) (fun _ => rfl) (fun _ => rfl)
